@@ -149,6 +149,31 @@ def run(chk, tier, seed):
                 chk.violation('format(%d, "%s") expected %r, observed %r' % (c["x"], c["spec"], c["v"], got.get("v", got)),
                               {"kind": "format", "source": 'let f0 = format(%s, "%s");\n' % (c["x"] if c["x"] >= 0 else "(%d)" % c["x"], c["spec"]), "expected": c["v"], "observed": got},
                               finding_key="format:" + c["spec"])
+    # ---- B2: str format specifiers (fill / align / width in characters)
+    from checks import c18
+    sf = [c for c in cases if c["mode"] == "sformat"]
+    sj, smeta = [], {}
+    for b in range(0, len(sf), 60):
+        chunk = sf[b:b + 60]
+        src = "".join('let f%d = format(%s, "%s");\n' % (k, json.dumps(c18.s_of(c["x"]), ensure_ascii=False), c["spec"]) for k, c in enumerate(chunk))
+        sj.append({"id": "sfmt%d" % b, "src": src, "observe": ["f%d" % k for k in range(len(chunk))]})
+        smeta["sfmt%d" % b] = chunk
+    sres = vf.run_jobs(sj, "c19-sfmt")
+    for j in sj:
+        o = sres[j["id"]]
+        if vf.job_outcome(o) != "ok":
+            chk.violation("str format program: %s %s" % (vf.job_outcome(o), str(o.get("compile", {}).get("msg") or o.get("inst"))[:300]), {"kind": "format", "source": j["src"]})
+            continue
+        for k, c in enumerate(smeta[j["id"]]):
+            chk.count(1)
+            chk.nontrivial([c["x"], c["spec"], "s"])
+            text = c18.s_of(c["x"])
+            want = c["fill"] * c["pre"] + text + c["fill"] * c["post"]
+            got = o["values"]["f%d" % k]
+            if got.get("v") != want:
+                chk.violation('format(%r, "%s") expected %r, observed %r' % (text, c["spec"], want, got.get("v", got)),
+                              {"kind": "format", "source": 'let f0 = format(%s, "%s");\n' % (json.dumps(text, ensure_ascii=False), c["spec"]), "expected": want, "observed": got},
+                              finding_key="sformat:" + c["spec"])
     # ---- C: sorting and order statistics against the stable reference
     ins = sort_programs(rnd, tier)
     d = vf.workdir("c19-sort")
@@ -246,7 +271,7 @@ def run(chk, tier, seed):
             if ho["values"]["e%d" % i].get("v") is not True or ho["values"]["h%d" % i].get("v") is not True:
                 chk.violation("collections with different histories: eq=%s same-hash=%s (pair %d)" % (ho["values"]["e%d" % i].get("v"), ho["values"]["h%d" % i].get("v"), i),
                               {"kind": "order", "source": hsrc, "pair": i})
-    chk.part("cases", pairs=len(pairs), formats=len(fmts), sorts=len(ins), failing_comparator_runs=len(fail_jobs))
+    chk.part("cases", pairs=len(pairs), formats=len(fmts), str_formats=len(sf), sorts=len(ins), failing_comparator_runs=len(fail_jobs))
     chk.sample({"pair": pairs[len(pairs) // 2]})
     chk.sample({"format": fmts[len(fmts) // 2]})
     chk.cov["rule"] = ("all typed value pairs of the XrOrder universe (10 nested types) with eq/ne/cmp/lt/le/gt/ge/hash/to_str; "
